@@ -986,6 +986,11 @@ def gen_macro_scenario(rng, prof=None, tier='quick'):
     isa['sets']['ixw'] = [{'id': 'ix2', 'kind': 'indexed_register', 'code': (2, 2), 'pos': 'suffix', 'register': 'x', 'dec': None,
                            'idx': [{'id': 'ix2_0', 'kind': 'numeric_bytecode', 'code': None, 'code_size': 3, 'min': -6, 'max': 9}]}]
     isa['instrs']['add4'] = [variant(0x6, 3, sets_parser(['ixw']))]
+    # an indexed register without byte code of its own whose index has a code: the code is still part of the encoding
+    isa['sets']['ixn'] = [{'id': 'ix3', 'kind': 'indexed_register', 'code': None, 'pos': 'suffix', 'register': 'x', 'dec': None,
+                           'idx': [{'id': 'ix3_0', 'kind': 'numeric_bytecode', 'code': None, 'code_size': 4, 'min': 0, 'max': 15},
+                                   {'id': 'ix3_1', 'kind': 'register', 'register': 'b', 'code': (12, 4)}]}]
+    isa['instrs']['ldq'] = [variant(0xA, 4, sets_parser(['ixn']))]
     # an alternative that reads its text as an expression (and finds it malformed) in front of one that accepts such text
     isa['sets']['mixd'] = [{'id': 'ne1', 'kind': 'numeric_enumeration', 'code': None, 'pos': 'suffix', 'code_size': 4, 'code_dict': {1: 6, 2: 7},
                             'arg': None, 'arg_dict': None},
@@ -1031,7 +1036,7 @@ def gen_macro_scenario(rng, prof=None, tier='quick'):
         return Txt(f'{n}+{b}', [t_lab(n), t_op('OAdd'), t_num(b)])
     kinds = ['dbl'] * 5 + ['mac1'] * 2 + ['mac2'] * 2 + ['swp', 'mac3', 'mac3', 'add3', 'add3', 'cmpq', 'cmpq', 'mac4', 'mac4', 'mac5', 'mac5',
                                                           'ldx', 'tst', 'psh2', 'psh2', 'mac6', 'mac6', 'jmpz2', 'jmpz2', 'swp2', 'add3b', 'add3b', 'add3b', 'cmpq2', 'cmpq2', 'cmpq2',
-                                                          'ld3', 'ld3', 'ld2', 'ld2', 'pop2', 'pop2', 'pop2', 'add4', 'add4', 'add4', 'add4', 'ldm', 'ldm', 'tri', 'tri']
+                                                          'ld3', 'ld3', 'ld2', 'ld2', 'pop2', 'pop2', 'pop2', 'add4', 'add4', 'add4', 'add4', 'ldm', 'ldm', 'tri', 'tri', 'ldq', 'ldq']
     # a program is rejected as a whole by one unacceptable statement: at most one statement kind that may be unacceptable
     risky_left = 1 if rng.random() < 0.5 else 0
     for _ in range(rng.randint(2, 7)):
@@ -1104,6 +1109,10 @@ def gen_macro_scenario(rng, prof=None, tier='quick'):
             risky_left = 0 if i not in (0, 3, -4, 7) else risky_left
             x = x_num(rng, i)
             stmts.append(['asm', 'add4', [['x+' + x.text, [t_lab('x'), t_op('OAdd')] + x.toks]]])
+        elif k == 'ldq':
+            i = rng.choice(['3', '0', '15', 'b', 'K9'])
+            tok = t_num(int(i)) if i.isdigit() else t_lab(i)
+            stmts.append(['asm', 'ldq', [[f'x + {i}', [t_lab('x'), t_op('OAdd'), tok]]]])
         elif k == 'ldm':
             form = rng.choice([Txt('x+', [t_lab('x'), t_op('OAdd')]), Txt('2', [t_num(2)]), Txt('1', [t_num(1)]), Txt('X+', [t_lab('X'), t_op('OAdd')])]
                               + ([Txt('x', [t_lab('x')]), Txt('3', [t_num(3)])] if risky_left else []))
